@@ -545,8 +545,9 @@ func scenDutyDB(r *run, ctx context.Context, wg *sync.WaitGroup) {
 		cover(r.comp, "AttestationData")
 	case 1: // proposer
 		f := proposalForks[verifrt.Intn("cfg", len(proposalForks))]
+		extras := verifrt.Intn("cfg", 2) == 1
 		build = func(slot, seed uint64) datum {
-			fresh := func() any { return core.UnsignedDataSet{simdata.PubKey(0): mkUnsignedProposal(f, slot, seed)} }
+			fresh := func() any { return core.UnsignedDataSet{simdata.PubKey(0): mkUnsignedProposalX(f, slot, seed, extras)} }
 			ref := mkProposal(f, slot, seed)
 			return mk(core.NewProposerDuty(slot), fresh, []readAPI{{"await-proposal", func(ctx context.Context) (any, error) {
 				v, err := db.AwaitProposal(ctx, slot)
@@ -560,8 +561,9 @@ func scenDutyDB(r *run, ctx context.Context, wg *sync.WaitGroup) {
 	case 2: // aggregator
 		f := attForks[verifrt.Intn("cfg", len(attForks))]
 		comm := uint64(1 + verifrt.Intn("cfg", 2))
+		extras := verifrt.Intn("cfg", 2) == 1
 		build = func(slot, seed uint64) datum {
-			fresh := func() any { return core.UnsignedDataSet{simdata.PubKey(0): mkUnsignedAgg(f, slot, comm, seed)} }
+			fresh := func() any { return core.UnsignedDataSet{simdata.PubKey(0): mkUnsignedAggX(f, slot, comm, seed, extras)} }
 			refAgg := mkUnsignedAgg(f, slot, comm, seed)
 			ref := &refAgg.VersionedAttestation
 			root := must(must(refAgg.Data()).HashTreeRoot())
@@ -975,6 +977,7 @@ type beacon struct {
 	proFork         fork
 	nVals           int
 	genesis         time.Time
+	extras          bool // responses carry the optional fields outside the fork variants (v3 block values, validator index)
 	mu              sync.Mutex
 	served          []any // response objects, as a beacon client would keep them in a cache
 }
@@ -1013,6 +1016,9 @@ func (b *beacon) AttestationData(_ context.Context, o *eth2api.AttestationDataOp
 func (b *beacon) Proposal(_ context.Context, o *eth2api.ProposalOpts) (*eth2api.Response[*eth2api.VersionedProposal], error) {
 	verifrt.Yield()
 	p := mkProposal(b.proFork, uint64(o.Slot), b.seed)
+	if b.extras {
+		withExtras(p, b.seed)
+	}
 	b.keep(p)
 	return &eth2api.Response[*eth2api.VersionedProposal]{Data: p}, nil
 }
@@ -1023,9 +1029,18 @@ func (b *beacon) aggAtt(slot, comm uint64) *eth2spec.VersionedAttestation {
 	return a
 }
 
+// aggAttResp is the response object for an aggregate: with extras it names a validator index.
+func (b *beacon) aggAttResp(slot, comm uint64) *eth2spec.VersionedAttestation {
+	a := b.aggAtt(slot, comm)
+	if b.extras {
+		withExtras(a, b.seed+comm)
+	}
+	return a
+}
+
 func (b *beacon) AggregateAttestation(_ context.Context, o *eth2api.AggregateAttestationOpts) (*eth2api.Response[*eth2spec.VersionedAttestation], error) {
 	verifrt.Yield()
-	a := b.aggAtt(uint64(o.Slot), uint64(o.CommitteeIndex))
+	a := b.aggAttResp(uint64(o.Slot), uint64(o.CommitteeIndex))
 	b.keep(a)
 	return &eth2api.Response[*eth2spec.VersionedAttestation]{Data: a}, nil
 }
@@ -1061,6 +1076,7 @@ func scenFetcher(r *run, ctx context.Context, wg *sync.WaitGroup) {
 		attFork: attForks[verifrt.Intn("cfg", len(attForks))], proFork: proposalForks[verifrt.Intn("cfg", len(proposalForks))]}
 	onlyComm0 := verifrt.Intn("cfg", 2) == 1
 	contribV2 := verifrt.Intn("cfg", 2) == 1
+	bn.extras = verifrt.Intn("cfg", 2) == 1
 	var pks []core.PubKey
 	for i := 0; i < nv; i++ {
 		pks = append(pks, simdata.PubKey(i))
